@@ -11,6 +11,7 @@ void harness(void)
 {
     xv_ghost_havoc();
     xv_tc_havoc();
+    xv_tcn_top = 1;
     struct track *track;
     unsigned f0 = xv_fail_n, c0 = xv_conn_n;
     track_connect_next(track);
